@@ -82,6 +82,14 @@ def sweep(tier):
         yield {'kind': 'bc', 'cases': [{'kernel': name, 'args': a} for a in al]}
         for a in al:
             yield {'kind': 'arena', 'kernel': name, 'args': a}
+    # long cumulative sums (a blocked / threaded fast path would start at some length): around 2^16 and 2^20
+    from props import c19
+    for n in (65535, 65536, 65537, (1 << 20) - 1, 1 << 20, (1 << 20) + 1):
+        for initial in (False, True):
+            for final in (False, True):
+                for T in (1, 16):
+                    a = dict(c19._case(n, initial, final, 0, ('i8', 'i8')), threads=T)
+                    yield {'kind': 'arena', 'kernel': 'util.cumsum', 'args': a, 'arena_bytes': 20 * n + (1 << 16)}
     gs = list(K.all_grid())
     for i in range(0, len(gs), 60):
         yield {'kind': 'bc', 'cases': [{'kernel': K.GRID_KERNEL[g['kind']], 'args': g} for g in gs[i:i + 60]]}
@@ -113,7 +121,7 @@ def run(case):
         from e3_arena import kernels as K
         name = case['kernel']
         fn = K.KERNELS[name][1]
-        ra, rb, da, db, exc = A.two_fills(lambda ar: fn(case['args'], ar), nbytes=1 << 20)
+        ra, rb, da, db, exc = A.two_fills(lambda ar: fn(case['args'], ar), nbytes=case.get('arena_bytes', 1 << 20))
         bump(out['faults'], 'arena-two-fills')
         bump(out['probes'], 'kernel:' + name)
         if exc is not None:
